@@ -17,12 +17,16 @@
 (*                 The pc labels are the hook points cache.goi.* /         *)
 (*                 cache.clear.* (proposed/C35-cache-hooks.diff).          *)
 (*                                                                         *)
-(* Two designs, selected by constants:                                     *)
-(*   ClearKeepsPinned = FALSE, ReleaseOnInitError = FALSE : the code as it *)
-(*   is (clear() drops every entry, pinned or not, and releases the page   *)
-(*   count it read before locking; an init error keeps the page that was   *)
-(*   allocated from the budget).   TRUE/TRUE : the repaired design, for    *)
-(*   which every property below is an invariant.                           *)
+(* Designs, selected by three constants (all FALSE = the code as it is,    *)
+(* all TRUE = the repaired design, for which every property below is an    *)
+(* invariant; one constant per proposed repair):                           *)
+(*   ClearKeepsPinned     clear() leaves pinned entries alone (as is: it   *)
+(*                        drops every entry, pinned or not)                *)
+(*   ClearCountsUnderLock clear() releases the number of entries it        *)
+(*                        removed, counted under the shard locks (as is:   *)
+(*                        the len() it read before locking)                *)
+(*   ReleaseOnInitError   an init error gives the allocated page back (as  *)
+(*                        is: the page stays allocated)                    *)
 (*                                                                         *)
 (* Units: the budget counts pages. `used` is the Cache pool counter,       *)
 (* Ballast pages of it belong to other consumers; can_allocate holds iff   *)
@@ -41,7 +45,7 @@ CONSTANTS Threads,            \* logical threads, e.g. {1, 2}
           Fine,               \* granularity (see above)
           InitMayFail,        \* explore get_or_insert calls whose init closure returns an error
           BudgetPages, Ballast,
-          ClearKeepsPinned, ReleaseOnInitError
+          ClearKeepsPinned, ClearCountsUnderLock, ReleaseOnInitError
 
 VARIABLES ents,        \* [Shards -> Seq(entry)]   entry = [key, pins, vis, dirty, data]; the Vec of the shard, in order
           hand,        \* [Shards -> Nat]          0-based SIEVE hand
@@ -225,8 +229,7 @@ Unpin(t, i) ==
        /\ Log(t, "unpin", k, i, FALSE, "ok")
 
 (* --------------------------------- clear --------------------------------- *)
-\* one shard of clear(): `entries.clear(); index.clear(); hand = 0` (repaired design: unpinned entries only,
-\* and their pages are released here, under the lock)
+\* one shard of clear(): `entries.clear(); index.clear(); hand = 0` (ClearKeepsPinned: unpinned entries only)
 ClearOne(es, h) ==
     IF ClearKeepsPinned
       THEN LET r == RemoveUnpinned(es, h, Len(es), {}) IN [es |-> r.es, hand |-> r.hand, rem |-> r.rem]
@@ -238,7 +241,7 @@ ClearAll(t) ==   \* call level: the whole clear() in one step
            rem == UNION {c[s].rem : s \in Shards}
            n == TotalEntries(ents) IN
        /\ ents' = [s \in Shards |-> c[s].es] /\ hand' = [s \in Shards |-> c[s].hand]
-       /\ used' = SatSub(used, IF ClearKeepsPinned THEN Cardinality(rem) ELSE n)
+       /\ used' = SatSub(used, IF ClearCountsUnderLock THEN Cardinality(rem) ELSE n)
        /\ held' = Invalidate(held, rem, "clear")
        /\ lastWritten' = Forget(lastWritten, rem)
        /\ dev' = dev \cup (IF \E x \in rem : HasLiveRef(x) THEN {"clear_dropped_pinned"} ELSE {})
@@ -256,7 +259,7 @@ ClearShard(t) ==
     /\ pc[t] = "clear_shards" /\ UNCHANGED <<nops, leaked>>
     /\ LET s == loc[t].shard  c == ClearOne(ents[s], hand[s])  rest == {x \in Shards : x > s} IN
        /\ ents' = [ents EXCEPT ![s] = c.es] /\ hand' = [hand EXCEPT ![s] = c.hand]
-       /\ used' = IF ClearKeepsPinned THEN SatSub(used, Cardinality(c.rem)) ELSE used
+       /\ used' = used
        /\ held' = Invalidate(held, c.rem, "clear")
        /\ lastWritten' = Forget(lastWritten, c.rem)
        /\ dev' = dev \cup (IF \E x \in c.rem : HasLiveRef(x) THEN {"clear_dropped_pinned"} ELSE {})
@@ -267,10 +270,10 @@ ClearShard(t) ==
                  /\ loc' = [loc EXCEPT ![t].removed = @ + Cardinality(c.rem), ![t].shard = MinOf(rest)]
        /\ Log(t, "clear_shard", s, 0, FALSE, "-")
 
-ClearRelease(t) ==   \* `budget.release(Pool::Cache, page_count * PAGE_SIZE)` with the count read at the start
+ClearRelease(t) ==   \* `budget.release(Pool::Cache, page_count * PAGE_SIZE)` with the count read at the start (as is)
     /\ pc[t] = "clear_release" /\ UNCHANGED <<nops, ents, hand, held, lastWritten, leaked>>
-    /\ used' = IF ClearKeepsPinned THEN used ELSE SatSub(used, loc[t].len)
-    /\ dev' = dev \cup (IF ~ClearKeepsPinned /\ loc[t].len # loc[t].removed THEN {"clear_stale_len"} ELSE {})
+    /\ used' = SatSub(used, IF ClearCountsUnderLock THEN loc[t].removed ELSE loc[t].len)
+    /\ dev' = dev \cup (IF ~ClearCountsUnderLock /\ loc[t].len # loc[t].removed THEN {"clear_stale_len"} ELSE {})
     /\ pc' = [pc EXCEPT ![t] = "idle"] /\ loc' = [loc EXCEPT ![t] = NoLoc]
     /\ Log(t, "clear_release", 0, 0, FALSE, "ok")
 
